@@ -117,6 +117,9 @@ func (vc *VC) doCall(fr *frame, st *State, instr ssa.Instruction, c *ssa.CallCom
 		if fv.Fn != nil {
 			callee = fv.Fn.Fn
 			freeVars = fv.Fn.Bindings
+		} else if key, recv, recvT, ok := vc.funcFieldKey(fr, st, c.Value); ok && vc.E.DB.Contracts[key] != nil {
+			sig := c.Value.Type().Underlying().(*types.Signature)
+			return vc.callByContract(fr, st, vc.E.DB.Contracts[key], nil, sig, recvT, append([]Val{recv}, args...), rt, pos)
 		} else {
 			vc.check(st, "nil", fr.prefix+"callfn", "call of nil function value", p.Ne(vc.asInt(fv), p.Int(0)), pos)
 			return vc.unknownCall(fr, st, c, "funcvalue", args, rt)
@@ -520,6 +523,14 @@ func (vc *VC) execCopy(fr *frame, st *State, c *ssa.CallCommon, args []Val, pos 
 			srcContent = p.App("bcontent", SInt, p.Select(m, src.Arr), src.Off, n)
 		}
 		nc := p.App("arrcopy$"+typeKey(at), SInt, old, dst.Off, srcContent, n)
+		if aty, ok := at.Underlying().(*types.Array); ok {
+			if nv, isLit := n.IntVal(); isLit && nv.IsInt64() && nv.Int64() == aty.Len() {
+				if ov, isLit := dst.Off.IntVal(); isLit && ov.Sign() == 0 {
+					// the whole array is overwritten: its value is determined by the source bytes
+					nc = p.App("arrofbytes$"+typeKey(at), SInt, srcContent)
+				}
+			}
+		}
 		_ = full
 		st.cells[k] = scalar(nc)
 		// the array view keeps describing the cell: elements of the view are those of the new content
@@ -664,6 +675,8 @@ func (vc *VC) allocatesFrame(st, old *State, ct *Contract, what string) {
 		keys := map[string]bool{}
 		if _, isStruct := structOf(t); isStruct {
 			heapKeysOfStore("", t, keys)
+		} else if sl, isSlice := t.Underlying().(*types.Slice); isSlice {
+			heapKeysOfStore(elemMapKey(sl.Elem()), sl.Elem(), keys)
 		} else if mt, isMap := t.Underlying().(*types.Map); isMap {
 			keys[mapKey(mt)+"#dom"] = true
 			keys[mapKey(mt)+"#val"] = true
@@ -869,11 +882,13 @@ func (vc *VC) havocLocs(st *State, locs []loc, what string) {
 		}
 		srt, known := vc.heapSort[l.key]
 		if !known {
-			if len(l.idx) == 0 {
-				st.untouched = appendUnique(st.untouched, l.key)
+			if s, ok := vc.guessKeySort(l.key); ok {
+				vc.heapInit(l.key, &s)
+				srt, known = s, true
 			}
-			// an indexed location of a map never read so far: materialise with the natural sort when first read.
-			// Mark as untouched so a later first read does not see the entry value.
+		}
+		if !known {
+			// a map never read so far whose sort cannot be derived: the whole map counts as havocked
 			st.untouched = appendUnique(st.untouched, l.key)
 			continue
 		}
@@ -885,4 +900,54 @@ func (vc *VC) havocLocs(st *State, locs []loc, what string) {
 			st.heap[l.key] = p.Store(cur, l.idx[0], p.Fresh(l.key+"@"+what, srt.elemSort()))
 		}
 	}
+}
+
+// funcFieldKey recognises a call through a function-typed struct field (x.f(...)) and returns the
+// contract key "<pkg>.(*T).f" together with the object holding the field.
+func (vc *VC) funcFieldKey(fr *frame, st *State, v ssa.Value) (string, Val, types.Type, bool) {
+	u, ok := v.(*ssa.UnOp)
+	if !ok || u.Op != token.MUL {
+		return "", Val{}, nil, false
+	}
+	fa, ok := u.X.(*ssa.FieldAddr)
+	if !ok {
+		return "", Val{}, nil, false
+	}
+	pt := fa.X.Type().Underlying().(*types.Pointer)
+	s, ok := structOf(pt.Elem())
+	if !ok {
+		return "", Val{}, nil, false
+	}
+	n, ok := pt.Elem().(*types.Named)
+	if !ok || n.Obj().Pkg() == nil {
+		return "", Val{}, nil, false
+	}
+	key := n.Obj().Pkg().Path() + ".(*" + n.Origin().Obj().Name() + ")." + s.Field(fa.Field).Name()
+	return key, vc.operand(fr, st, fa.X), fa.X.Type(), true
+}
+
+// guessKeySort derives the sort of a heap map from its key name (leaf Int unless known Bool).
+func (vc *VC) guessKeySort(key string) (Sort, bool) {
+	if strings.HasPrefix(key, "ghost$") {
+		s, ok := vc.E.DB.Ghosts[strings.TrimPrefix(key, "ghost$")]
+		return s, ok
+	}
+	leaf := SInt
+	boolKeyMu.Lock()
+	b, ok := boolKeys[key]
+	boolKeyMu.Unlock()
+	if ok && b {
+		leaf = SBool
+	}
+	switch {
+	case strings.HasSuffix(key, "#dom") && strings.HasPrefix(key, "Map$"):
+		return SArrIAB, true
+	case strings.HasPrefix(key, "Map$"), strings.HasPrefix(key, "E$"):
+		return ArrSort(SInt, ArrSort(SInt, leaf)), true
+	case strings.HasPrefix(key, "F$"), strings.HasPrefix(key, "M$"):
+		return ArrSort(SInt, leaf), true
+	case strings.HasPrefix(key, "G$"):
+		return leaf, true
+	}
+	return "", false
 }
